@@ -789,7 +789,11 @@ def run(ctx):
                 'random place, masked and unmasked) x cuts (every single cut + byte-at-a-time for streams <= 120 bytes; '
                 'every offset inside header / extended length / masking key for every length class; random k-cuts) x '
                 'local write/close events between the reads; first read through the constructor in some sessions; '
-                'non-trivial = cut stream, fragmented message or a local op; distinct = distinct session')
+                'non-trivial = cut stream, fragmented message or a local op; distinct = distinct session. '
+                'Endpoint part (c17_e2e): the same frame generators behind a real HTTP Upgrade handshake through the real '
+                'WebSocketsDispatcher (1-4 connections at once, random interleaving, disconnect) and the real WebSocketClient '
+                '(scripted peer): handshake alone / cut anywhere / frames glued behind it in the same read / everything in one '
+                'read; flush-1/2/3/drain schedules between reads; local write/close between the reads')
     ctx.trusted += ['bytes.decode("utf-8","replace") inverts str.encode on the generated (valid UTF-8) texts',
                     'harness RFC 6455 encoder for peer traffic: cross-checked byte for byte against CV.WS.rfcEncodeFrames on every session',
                     'os.urandom substituted in circuits.protocols.websocket to make masking keys observable']
@@ -797,11 +801,18 @@ def run(ctx):
                         'inside a message, payload < 2^63 bytes; text payloads are valid UTF-8 as a whole',
                         'the unmasked close frame b"\\x88\\x00" written in client mode is outside the statement (not judged)']
     check_params(ctx)
-    cases = ctx.corpus() + sessions(ctx)
+    corpus = ctx.corpus()
+    cases = [c for c in corpus if c.get('kind') != 'e2e'] + sessions(ctx)
     for i in range(0, len(cases), 150):
         evaluate(ctx, cases[i:i + 150])
         if ctx.time_up():
             break
+    # the endpoints: the codec as installed by WebSocketsDispatcher / WebSocketClient (harness/c17_e2e.py)
+    import c17_e2e
+    e2e_corpus = [c for c in corpus if c.get('kind') == 'e2e']
+    if e2e_corpus:
+        c17_e2e.evaluate(ctx, e2e_corpus)
+    c17_e2e.run_e2e(ctx)
 
 
 def search(ctx):
@@ -809,4 +820,8 @@ def search(ctx):
 
 
 def replay(ctx, case):
-    evaluate(ctx, [case])
+    if case.get('kind') == 'e2e':
+        import c17_e2e
+        c17_e2e.evaluate(ctx, [case])
+    else:
+        evaluate(ctx, [case])
